@@ -148,7 +148,7 @@ impl Property for C11 {
             ctx.exclude("ambiguous safety table");
             return Ok(());
         }
-        let (robot, stack, _built) = construct(&c.scene, &c.tool_tf, &c.limits, c.ctor, &c.j);
+        let (mut robot, stack, _built) = construct(&c.scene, &c.tool_tf, &c.limits, c.ctor, &c.j);
         let entry = c.entry % 4;
         let what = ENTRY_NAMES[entry as usize];
         ctx.class(["ctor:new(first_only)", "ctor:new(all)", "ctor:with_safety"][(c.ctor % 3) as usize]);
@@ -165,6 +165,9 @@ impl Property for C11 {
         let prev = c.prev.resolve(Some(c.j));
         let u = call_entry(&stack, entry, &na, &prev, c.j6).map_err(|m| viol!("no panic", "stack {}: {}", what, m))?;
         let r = call_entry(&robot, entry, &na, &prev, c.j6).map_err(|m| viol!("no panic", "robot with shape {}: {}", what, m))?;
+        // the same query put a second time to the same robot gives the same answer (no state carried between calls)
+        let r_again = call_entry(&robot, entry, &na, &prev, c.j6).map_err(|m| viol!("no panic", "robot with shape {} (second call): {}", what, m))?;
+        ensure!(r_again.len() == r.len() && r_again.iter().zip(r.iter()).all(|(a, b)| (0..6).all(|t| a[t].to_bits() == b[t].to_bits())), "the same query gives the same answer when repeated", "{}: first {:?} second {:?}", what, r, r_again);
         let mut expect = Vec::new();
         let mut dropped = 0;
         for s in &u {
@@ -216,6 +219,36 @@ impl Property for C11 {
         ctx.class_n("underlying-answers-dropped", dropped as u64);
         if !expect.is_empty() && dropped > 0 {
             ctx.nontrivial();
+        }
+        // history: the cell changes between two calls (the body and its environment are public fields). An obstacle is put
+        // onto a link of the first kept answer; the next call must again return precisely what collides() lets through now.
+        if let Some(s0) = expect.first() {
+            let li = 2 + ((c.ctor as usize + c.entry as usize) % 4);
+            let at = stack.forward_with_joint_poses(s0)[li];
+            let m = MeshSpec { lo: [-0.04, -0.04, -0.04], hi: [0.04, 0.04, 0.04], fan: 0 };
+            robot.body.collision_environment.push(CollisionBody { mesh: m.trimesh(), pose: at.cast::<f32>() });
+            let r2 = call_entry(&robot, entry, &na, &prev, c.j6).map_err(|m| viol!("no panic", "robot with shape {} (after an obstacle was added): {}", what, m))?;
+            let mut expect2 = Vec::new();
+            for s in &u {
+                if !no_panic(|| robot.collides(s)).map_err(|m| viol!("no panic", "collides: {}", m))? {
+                    expect2.push(*s);
+                }
+            }
+            ensure!(
+                r2.len() == expect2.len() && r2.iter().zip(expect2.iter()).all(|(a, b)| (0..6).all(|t| a[t].to_bits() == b[t].to_bits())),
+                "each inverse entry point of a robot with shape returns precisely the non-colliding solutions of the underlying stack, in unchanged order",
+                "{} after an obstacle was added to robot.body.collision_environment at link {} of {:?}: got {:?} expected {:?} (before the obstacle: {:?})",
+                what,
+                li + 1,
+                s0,
+                r2,
+                expect2,
+                expect
+            );
+            ctx.class("history:obstacle added between two calls");
+            if expect2.len() < expect.len() {
+                ctx.class("history:obstacle removes a previously kept answer");
+            }
         }
         Ok(())
     }
